@@ -119,6 +119,16 @@ def run_case(case, ctx):
 			raise Violation('pairwise_wrong', f'jaccarddist of a pair is {float(d)!r}, exact value rounds to {J.bits_to_float(eb)!r}', case)
 		return bits
 
+	if case.get('poison'):
+		# calls that are rejected (bad dtype / wrong out shape) must not influence later ones
+		for bad in (lambda: jaccarddist(np.array([0.5]), refs[0] if refs else np.array([1], dtype=rdt)),
+		            lambda: jaccarddist_array(queries[0] if queries else np.array([1], dtype=qdt), rc, out=np.zeros(n + 3, dtype=np.float32)),
+		            lambda: jaccarddist_matrix(list(queries), rc, out=np.zeros((1, 1), dtype=np.float64)),
+		            lambda: jaccarddist_pairwise(rc, out=np.zeros((n + 1, n), dtype=np.float32))):
+			try:
+				bad()
+			except Exception:
+				pass
 	func = case['func']
 	threads = case['threads']
 	repeats = case['repeats'] if cont in ('array', 'array_i4bounds', 'hdf5', 'array_window', 'hdf5_window') else 1
@@ -305,6 +315,7 @@ def bulk_case(draw, tier):
 		'out': draw(st.sampled_from(['none', 'fresh', 'strided'])),
 		'threads': draw(st.one_of(st.integers(2, 16), st.sampled_from([16, 2, 1, 3]), st.integers(1, 16))),
 		'repeats': 3 if tier == 'quick' else 20,
+		'poison': draw(st.sampled_from([False, False, True])),
 	}
 
 
